@@ -45,6 +45,16 @@ def run(ctx):
     ctx.rule("R09.6", "every accepted stream that is served was switched to non-blocking mode first; read()/write() make one try_read/try_write each")
     ctx.guarded("R09.6", "nonblocking", lambda: nonblocking(ctx, "R09.6"))
     ctx.guarded("R09.6", "single-io", lambda: single_io(ctx, "R09.6"))
+    ctx.rule("R09.10", "no client-triggered panic in the server: every panic-capable construct in server.rs is discharged or environment-justified (= C03 R03.2 restricted to the server)")
+    from .c06 import _Remap
+
+    def server_panics():
+        from . import c03
+        c03.panics(_Remap(ctx, "R09.10"), True, True, scope=("server::",))
+
+    ctx.guarded("R09.10", "panics", server_panics)
+    ctx.rule("R09.11", "the in-flight counter cannot overflow for any realistic history: it is at least 32 bits wide and the number of requests read is not narrowed before it is added")
+    ctx.guarded("R09.11", "counter-width", lambda: counter_width(ctx, "R09.11"))
 
 
 def write_guard(ctx):
@@ -181,6 +191,24 @@ def exits(ctx, write_guarded):
     ctx.ob("R09.1", "respond|errors", ps <= {"IOError(_)", "Underflow"}, "respond can fail only with %s (epoll_ctl error, guarded underflow)" % sorted(ps), frp.loc(0))
 
 
+def counter_width(ctx, rule):
+    facts = ctx.facts
+    fty = [f for f in facts.struct_fields(srv.CCT) if f["name"] == "in_flight_response_count"]
+    bits = {"u8": 8, "u16": 16, "u32": 32, "u64": 64, "usize": 64, "u128": 128}
+    ty = fty[0]["ty"]["s"] if fty else "?"
+    ctx.ob(rule, "counter|width", bits.get(ty, 0) >= 32, "ClientConnection.in_flight_response_count is a %s (an unsigned type of at least 32 bits is needed: 2^32 unanswered requests are out of reach, 256 are not)" % ty)
+    fn, lv = leaves(ctx, CC + "read")
+    n = 0
+    for lf in lv:
+        for e in lf.events:
+            if e[0] == "assign" and e[3] == "(*_1).in_flight_response_count":
+                for x in subterms(e[4]):
+                    if isinstance(x, tuple) and x and x[0] == "cast" and x[3] == "IntToInt":
+                        n += 1
+                        ctx.ob(rule, "counter|cast|%s" % x[2], bits.get(x[2], 0) >= 32, "the number of requests read is converted to %s before it is added to the counter" % x[2], fn.loc(e[1]))
+    ctx.ob(rule, "counter|floor", n >= 1, "%d conversion(s) on the way into the counter inspected" % n)
+
+
 def pairing(ctx, rule):
     facts = ctx.facts
     # insert sites
@@ -282,12 +310,17 @@ def hangup(ctx, rule):
             tested = all(fl.get(f) is False for f in (srv.EV_ERR, srv.EV_HUP, srv.EV_RDHUP))
             ctx.ob(rule, "io|only-without-hangup|%s" % io[0][3].split("::")[-1], tested, "read()/write() happen only after ERR, HUP and RDHUP were all tested and absent", fn.loc(io[0][1]))
     ctx.ob(rule, "hangup|floor", n >= 1 and covered == {srv.EV_ERR, srv.EV_HUP, srv.EV_RDHUP}, "%d hang-up path(s) inspected; flags with a closing path: %s (ERROR, HANG_UP and READ_HANG_UP all needed)" % (n, sorted("0x%x" % f for f in covered)))
-    # clear_write_buffer really clears both
+    clear_write_buffer_rule(ctx, rule)
+
+
+def clear_write_buffer_rule(ctx, rule):
+    """clear_write_buffer really discards both: the queue is emptied and the unsent buffer becomes None
+    (an emptied but still present buffer would keep pending_write() true and be 'written' as zero bytes)."""
     fcw, lw = leaves(ctx, conn.P + "clear_write_buffer")
     for lf in lw:
         q = [e for e in lf.events if e[0] == "call" and last_seg(e[3]) == "clear" and conn.self_field(e[4][2][0], "response_queue")]
         b = [e for e in lf.events if (e[0] == "call" and last_seg(e[3]) == "take" and conn.self_field(e[4][2][0], "response_buffer")) or (e[0] == "assign" and e[3] == "(*_1).response_buffer" and e[4][0] == "agg" and e[4][2] == "None")]
-        ctx.ob(rule, "clear_write_buffer|both", len(q) >= 1 and len(b) >= 1, "HttpConnection::clear_write_buffer empties the queue and the unsent buffer", fcw.loc(0))
+        ctx.ob(rule, "clear_write_buffer|both", len(q) >= 1 and len(b) >= 1, "HttpConnection::clear_write_buffer empties the queue and sets the unsent buffer to None", fcw.loc(0))
     fcc, lcc = leaves(ctx, CC + "clear_write_buffer")
     for lf in lcc:
         ctx.ob(rule, "ClientConnection::clear_write_buffer", len(calls(lf, conn.P + "clear_write_buffer")) == 1, "ClientConnection::clear_write_buffer forwards to the connection", fcc.loc(0))
